@@ -1,6 +1,7 @@
 package commitlog
 
 import (
+	"io"
 	"sync"
 	"time"
 
@@ -92,8 +93,13 @@ func (c *compactCleaner) compact(hw int64, segments []*segment) ([]*segment,
 		compacted  = make([]*segment, 0, len(segments))
 		epochCache = newLeaderEpochCacheNoFile(c.Name, c.Logger)
 		removed    = 0
-		keyOffsets = c.scanKeys(hw, segments)
 	)
+	keyOffsets, err := c.scanKeys(hw, segments)
+	if err != nil {
+		// Without the complete key table we cannot tell which messages are
+		// superseded, so nothing may be removed.
+		return nil, nil, 0, err
+	}
 
 	// Write new segments. Skip the last segment since we will not compact it.
 	// TODO: Join segments that are below the bytes limit.
@@ -114,7 +120,14 @@ func (c *compactCleaner) compact(hw int64, segments []*segment) ([]*segment,
 
 	// Maintain start offset for each new leader epoch for the last segment.
 	ss := newSegmentScanner(last)
-	for ms, _, err := ss.Scan(); err == nil; ms, _, err = ss.Scan() {
+	for {
+		ms, _, err := ss.Scan()
+		if err == io.EOF {
+			break
+		}
+		if err != nil {
+			return nil, nil, 0, err
+		}
 		leaderEpoch := ms.LeaderEpoch()
 		if leaderEpoch > epochCache.LastLeaderEpoch() {
 			if err := epochCache.Assign(leaderEpoch, ms.Offset()); err != nil {
@@ -137,7 +150,18 @@ func (c *compactCleaner) cleanSegment(seg *segment, keyOffsets *sync.Map, hw int
 		ss      = newSegmentScanner(seg)
 		removed = 0
 	)
-	for ms, _, err := ss.Scan(); err == nil; ms, _, err = ss.Scan() {
+	for {
+		ms, _, err := ss.Scan()
+		if err == io.EOF {
+			break
+		}
+		if err != nil {
+			// The segment could not be read to its end, e.g. because the log
+			// was closed under us. What was not read must not count as
+			// removed: give up and leave the segment as it is.
+			cleaned.Delete() // nolint: errcheck
+			return nil, removed, err
+		}
 		var (
 			offset       = ms.Offset()
 			key          = ms.Message().Key()
@@ -178,12 +202,13 @@ func (c *compactCleaner) cleanSegment(seg *segment, keyOffsets *sync.Map, hw int
 	return cleaned, removed, nil
 }
 
-func (c *compactCleaner) scanKeys(hw int64, segments []*segment) *sync.Map {
+func (c *compactCleaner) scanKeys(hw int64, segments []*segment) (*sync.Map, error) {
 	var (
 		wg            sync.WaitGroup
 		keyOffsets    = new(sync.Map)
 		numGoroutines = c.MaxGoroutines
 		segmentC      = make(chan *segment, len(segments))
+		errC          = make(chan error, len(segments))
 	)
 	if len(segments) < numGoroutines {
 		numGoroutines = len(segments)
@@ -191,7 +216,7 @@ func (c *compactCleaner) scanKeys(hw int64, segments []*segment) *sync.Map {
 
 	wg.Add(numGoroutines)
 	for i := 0; i < numGoroutines; i++ {
-		go c.scanSegments(hw, segmentC, &wg, keyOffsets)
+		go c.scanSegments(hw, segmentC, &wg, keyOffsets, errC)
 	}
 
 	for _, seg := range segments {
@@ -200,14 +225,28 @@ func (c *compactCleaner) scanKeys(hw int64, segments []*segment) *sync.Map {
 	close(segmentC)
 
 	wg.Wait()
-	return keyOffsets
+	select {
+	case err := <-errC:
+		return nil, err
+	default:
+	}
+	return keyOffsets, nil
 }
 
-func (c *compactCleaner) scanSegments(hw int64, ch <-chan *segment, wg *sync.WaitGroup, keyOffsets *sync.Map) {
+func (c *compactCleaner) scanSegments(hw int64, ch <-chan *segment, wg *sync.WaitGroup, keyOffsets *sync.Map,
+	errC chan<- error) {
 LOOP:
 	for seg := range ch {
 		ss := newSegmentScanner(seg)
-		for ms, _, err := ss.Scan(); err == nil; ms, _, err = ss.Scan() {
+		for {
+			ms, _, err := ss.Scan()
+			if err == io.EOF {
+				break
+			}
+			if err != nil {
+				errC <- err
+				break LOOP
+			}
 			offset := ms.Offset()
 			if offset > hw {
 				break LOOP
